@@ -13,14 +13,14 @@ EXTENDS Front, Json
 CONSTANTS MaxLen, Mode
 VARIABLE vSeq
 
-Alphabet == Cp("%\\{}:pAQnc0178@x")
+Alphabet == Cp("%\\{}:pAQnc0178@x+")
 Pieces == << Cp("%%"), Cp("%a"), Cp("%b"), Cp("%c"), Cp("%d"), Cp("%D"), Cp("%f"), Cp("%F"), Cp("%g"), Cp("%G"),
              Cp("%h"), Cp("%H"), Cp("%i"), Cp("%k"), Cp("%l"), Cp("%m"), Cp("%M"), Cp("%n"), Cp("%p"), Cp("%P"),
              Cp("%s"), Cp("%S"), Cp("%t"), Cp("%u"), Cp("%U"), Cp("%y"), Cp("%Y"), Cp("%Z"),
              Cp("%A@"), Cp("%CH"), Cp("%TY"), Cp("%{fid}"), Cp("%{projid}"), Cp("%{mirror-count}"),
              Cp("%{stripe-count}"), Cp("%{stripe-size}"), Cp("%{xattr:foo}"),
              Cp("\\a"), Cp("\\b"), Cp("\\c"), Cp("\\f"), Cp("\\n"), Cp("\\r"), Cp("\\t"), Cp("\\v"), Cp("\\0"),
-             Cp("\\\\"), Cp("\\101"), Cp("\\377"), Cp("\\q"), Cp("\\"),
+             Cp("\\\\"), Cp("\\101"), Cp("\\377"), Cp("\\q"), Cp("\\"), Cp("\\+12"), Cp("\\-1"), Cp("\\ 12"), Cp("\\x41"),
              Cp("abc"), Cp(" "), Cp("1"), Cp("{"), Cp("%q"), Cp("%"), Cp("%{"), Cp("%A") >>
 
 NSym == IF Mode = "chars" THEN Len(Alphabet) ELSE Len(Pieces)
